@@ -1,0 +1,27 @@
+//go:build verif
+
+package ratelimiter
+
+import (
+	"time"
+
+	"github.com/failsafe-go/failsafe-go/internal/util"
+)
+
+type verifStopwatch struct{ elapsed func() time.Duration }
+
+func (s *verifStopwatch) ElapsedTime() time.Duration { return s.elapsed() }
+func (s *verifStopwatch) Reset()                     {}
+
+var _ util.Stopwatch = &verifStopwatch{}
+
+// VerifSetStopwatch replaces the limiter's stopwatch with elapsed. Verification hook: only compiled with -tags verif.
+func VerifSetStopwatch[R any](limiter RateLimiter[R], elapsed func() time.Duration) {
+	sw := &verifStopwatch{elapsed: elapsed}
+	switch s := limiter.(*rateLimiter[R]).stats.(type) {
+	case *smoothStats[R]:
+		s.stopwatch = sw
+	case *burstyStats[R]:
+		s.stopwatch = sw
+	}
+}
